@@ -50,7 +50,7 @@ def _run_route(ctx: Ctx):
     for k, c in enumerate(rroute.exhaustive_cases(ctx.scale(2, 3))):
         cases.append((f"exh:{k}", c))
     rng = ctx.rng.fork("route")
-    for k in range(ctx.scale(400, 6000)):
+    for k in range(ctx.scale(1500, 12000)):
         cases.append((f"gen:{k}", rroute.gen_case(rng, max_routes=ctx.scale(8, 12))))
     impl_all, lines_all, bounds = [], [], []
     for name, case in cases:
@@ -118,7 +118,7 @@ def _run_net(ctx: Ctx):
     for f in sorted((VERIF / "corpus" / "C08").glob("net_*.json")):
         cases.append(("corpus:" + f.name, json.loads(f.read_text())["case"]))
     rng = ctx.rng.fork("net")
-    for k in range(ctx.scale(60, 1200)):
+    for k in range(ctx.scale(220, 2500)):
         cases.append((f"gen:{k}", rnet.gen_case(rng)))
     impl_all, rec_all, lines_all, pos_all = [], [], [], []
     for name, case in cases:
